@@ -22,7 +22,8 @@ class Func:
         self.lines = set()
         self.marked = False   # carries a suppression marker
         self.nested_in_marked = False
-        self.markable = None  # (line index, text to append) where a marker comment may go
+        self.markable = None  # line number of the name token (a marker comment goes at its end)
+        self.extra_lines = []  # other lines of the header (continuation lines, the line of the opening brace)
 
 
 class Out:
@@ -333,10 +334,11 @@ def gen_func(out, parent, ind, depth, where, body_len=None, style=None):
         f.start = (ln, col)
         rest = ", ".join(ps[1:]) + ")" + suf
         if rnd.random() < 0.5 and not arrow:
-            out.line((pad + "    ", None, False), (rest, f.id, True))
+            f.extra_lines.append(out.line((pad + "    ", None, False), (rest, f.id, True)))
             ln2 = out.line((pad, None, False), ("{", f.id, True))
         else:
             ln2 = out.line((pad + "    ", None, False), (maybe_trailing(out, rest + " {"), f.id, True))
+        f.extra_lines.append(ln2)
         f.markable = ln
     else:
         text = head + open_paren + ", ".join(ps) + ")" + suf
@@ -345,7 +347,7 @@ def gen_func(out, parent, ind, depth, where, body_len=None, style=None):
             ln = out.line(*segs)
             f.start = (ln, col)
             noise(out, ind, None, 0.0, 0.15)
-            out.line((pad, None, False), ("{", f.id, True))
+            f.extra_lines.append(out.line((pad, None, False), ("{", f.id, True)))
         else:
             segs.append((maybe_trailing(out, text + " {"), f.id, True))
             ln = out.line(*segs)
@@ -520,10 +522,10 @@ def gen_py_func(out, parent, ind, depth, body_len=None):
         segs.append(("def %s(%s," % (name, params[0]), f.id, True))
         ln = out.line(*segs)
         if rnd.random() < 0.5:
-            out.line((pad + "        ", None, False), (maybe_trailing(out, ", ".join(params[1:]) + ")" + ret + ":"), f.id, True))
+            f.extra_lines.append(out.line((pad + "        ", None, False), (maybe_trailing(out, ", ".join(params[1:]) + ")" + ret + ":"), f.id, True)))
         else:
-            out.line((pad + "        ", None, False), (", ".join(params[1:]), f.id, True))
-            out.line((pad, None, False), (")" + ret + ":", f.id, True))
+            f.extra_lines.append(out.line((pad + "        ", None, False), (", ".join(params[1:]), f.id, True)))
+            f.extra_lines.append(out.line((pad, None, False), (")" + ret + ":", f.id, True)))
     else:
         segs.append((maybe_trailing(out, "def %s(%s)%s:" % (name, ", ".join(params), ret)), f.id, True))
         ln = out.line(*segs)
